@@ -2001,6 +2001,105 @@ def run_oracle(ck):
     ck.cov["oracle"] = stats
 
 
+def _site_rows(sinfo):
+    import collections
+
+    by = collections.defaultdict(list)
+    for r in sinfo["rows"]:
+        by[(r["mod"], r["ctor"])].append(r)
+    return by
+
+
+def run_site_case(synth, by, case):
+    """One case of the attribute-site oracle -> None | ('skip', why) | (part, what)."""
+    from harness import lib_c10sites as S
+
+    if case["level"] == "class":
+        A = _imp("spox._attributes")
+        if A is None or not hasattr(A, case["cls"]):
+            return ("skip", "class not there")
+        if case["cls"] == "AttrTensors":
+            return S.run_tensors_case(A, case["form"], case["way"])
+        return S.run_class_case(A, case["cls"], case["form"], case["way"], case["items"])
+    rows = by.get((case["mod"], case["ctor"]), [])
+    row = next((r for r in rows if r["param"] == case["param"]), None)
+    if row is None:
+        return ("skip", "the constructor attribute is not in the inventory any more")
+    if row["cls"] in S.LIST_KIND:
+        return S.run_list_case(synth, row, rows, case["way"])
+    if row["cls"] == "AttrDtype":
+        return S.run_dtype_case(synth, row, rows, case["way"])
+    if row["cls"] == "AttrTensor":
+        return S.run_tensor_case(synth, row, rows, case["way"])
+    return S.run_scalar_case(synth, row, rows, case["way"])
+
+
+def run_site_oracle(ck, sinfo):
+    """Every attribute of every shipped constructor x the ways a caller can hand the value over (one-shot iterables,
+    numpy containers, views ...): exact items, ONNX name and type in the built model, captured at the call."""
+    from harness import lib_c10sites as S
+
+    rng = ck.rng
+    by = _site_rows(sinfo)
+    synth = S.Synth()
+    cases = []
+    # (a) the classes themselves, both entry points, every way, several item lists
+    for cname, kind in S.LIST_KIND.items():
+        for form in ("direct", "maybe"):
+            for way in S.CONTAINERS:
+                for items in S.CLASS_ITEMS[kind]:
+                    cases.append({"kind": "attr_site", "level": "class", "cls": cname, "form": form, "way": way, "items": items})
+    for form in ("direct", "maybe"):
+        for way in ("list", "tuple", "generator", "iter", "map", "deque", "dict_values", "chain"):
+            cases.append({"kind": "attr_site", "level": "class", "cls": "AttrTensors", "form": form, "way": way, "items": None})
+    # (b) every list attribute of every constructor: required ones with every way, optional ones with every one-shot
+    #     way in the thorough tier and a seeded selection (always at least one one-shot way) in the quick tier
+    for r in sinfo["rows"]:
+        if r["cls"] in S.LIST_KIND:
+            if r["form"] == "direct" or ck.thorough:
+                ways = list(S.CONTAINERS)
+            else:
+                ways = [rng.choice(S.ONE_SHOT)] + rng.sample([w for w in S.CONTAINERS if w not in S.ONE_SHOT], 2)
+            for way in ways:
+                cases.append({"kind": "attr_site", "level": "op", "mod": r["mod"], "ctor": r["ctor"], "param": r["param"],
+                              "cls": r["cls"], "form": r["form"], "way": way})
+        elif r["cls"] in S.SCALAR_KIND or r["cls"] in ("AttrDtype", "AttrTensor"):
+            allw = S.DTYPE_WAYS if r["cls"] == "AttrDtype" else S.TENSOR_WAYS if r["cls"] == "AttrTensor" else S.SCALAR_WAYS[S.SCALAR_KIND[r["cls"]]]
+            ways = allw if ck.thorough or r["cls"] in ("AttrDtype", "AttrTensor") else ["py", rng.choice(allw[1:])]
+            for way in ways:
+                cases.append({"kind": "attr_site", "level": "op", "mod": r["mod"], "ctor": r["ctor"], "param": r["param"],
+                              "cls": r["cls"], "form": r["form"], "way": way})
+    stats = {"cases": 0, "skipped_way": 0, "rows_reached": set(), "rows_unreached": {}}
+    import warnings
+
+    warnings.filterwarnings("ignore")  # InferenceWarning of inputs of unknown rank: not this property's business
+    for case in cases:
+        try:
+            out = run_site_case(synth, by, case)
+        except Exception as e:  # noqa: BLE001  a harness problem is not a verdict
+            UNOBSERVABLE.setdefault(f"attribute-site oracle ({case.get('ctor') or case.get('cls')})", f"{type(e).__name__}: {e}"[:200])
+            continue
+        rowkey = (case.get("mod"), case.get("ctor"), case.get("param")) if case["level"] == "op" else (case["cls"], case["form"])
+        if out is not None and out[0] == "skip":
+            if out[1] == "way not applicable":
+                stats["skipped_way"] += 1
+            else:
+                stats["rows_unreached"][".".join(map(str, rowkey))] = out[1][:90]
+            continue
+        stats["cases"] += 1
+        stats["rows_reached"].add(rowkey)
+        ck.count(("attr-site", case["level"], case["cls"], case["form"], case["way"]))
+        if out is not None:
+            part, what = out
+            where = case["cls"] if case["level"] == "class" else f"{case['mod']}.{case['ctor']}.{case['param']}"
+            ck.failure(f"attr-site:{case['cls']}:{case['form']}:{case['way']}:{part}", f"{where}: {what}", case)
+    stats["rows_reached"] = len(stats["rows_reached"])
+    stats["rows_unreached_n"] = len(stats["rows_unreached"])
+    stats["rows_unreached"] = dict(list(stats["rows_unreached"].items())[:12])
+    stats["synth_calls"] = synth.attempts
+    ck.cov["attr_site_oracle"] = stats
+
+
 def shrink_capture(site, case):
     """Shortest failing prefix / single mutation of the history."""
     for m in case["muts"]:
@@ -2033,6 +2132,18 @@ def run(ck: core.Check):
             ck.broken("translator", f"C10 {what} not extractable", why)
         if info["capture_probe_errors"]:
             ck.notes.append(f"capture probes that raised: {info['capture_probe_errors']}")
+    from translator import c10_attrsites
+
+    try:
+        sinfo = c10_attrsites.generate()
+    except Exception as e:  # noqa: BLE001
+        sinfo = {"rows": [], "irregular": ["<translator failed>"], "multi": [], "per_mod": {}, "shapes": [], "live_mismatches": []}
+        ck.broken("translator", "C10 attribute sites not extractable", f"{type(e).__name__}: {e}"[:300])
+    ck.cov["attr_sites"] = {"rows": len(sinfo["rows"]), "per_module": sinfo["per_mod"], "irregular": sinfo["irregular"][:10],
+                            "multi_use": sinfo["multi"][:10], "live_mismatches": sinfo["live_mismatches"][:10],
+                            "shapes": [f"{x['cls']}/{x['form']}/{'required' if x['required'] else 'optional'}: {x['count']}" for x in sinfo["shapes"]],
+                            "required_list_attributes": [f"{r['mod']}.{r['ctor']}.{r['param']}:{r['cls']}" for r in sinfo["rows"]
+                                                         if r["form"] == "direct" and r["cls"] in ("AttrInt64s", "AttrFloat32s", "AttrStrings", "AttrTensors")]}
     ck.lean(["SpoxModel.Props.C10"], audit="SpoxModel.Audit.C10")
     if ck.thorough:
         ck.leanchecker(["SpoxModel.Props.C10"])
@@ -2049,6 +2160,11 @@ def run(ck: core.Check):
             ck.broken("correspondence", f"C10 {facet} not observable", f"{type(e).__name__}: {e}"[:300])
     run_oracle(ck)
     ck.log("oracle done")
+    try:
+        run_site_oracle(ck, sinfo)
+        ck.log("attribute-site oracle done")
+    except Exception as e:  # noqa: BLE001
+        ck.broken("correspondence", "C10 attribute-site oracle not runnable", f"{type(e).__name__}: {e}"[:300])
     for facet, why in UNOBSERVABLE.items():
         ck.broken("correspondence", f"C10 {facet} not observable", why)
     ck.exhaustive = False
@@ -2133,4 +2249,14 @@ def replay(ck: core.Check, doc) -> bool:
         for part, what in problems:
             print(f"{site.name}: {what}")
         return bool(problems)
+    if kind == "attr_site":
+        from harness import lib_c10sites as S
+        from translator import c10_attrsites
+
+        import warnings
+
+        warnings.filterwarnings("ignore")
+        out = run_site_case(S.Synth(), _site_rows(c10_attrsites.generate()), case)
+        print(f"{case.get('ctor') or case.get('cls')} <{case['way']}>: {'ok' if out is None else out}")
+        return out is not None and out[0] != "skip"
     raise ValueError(f"unknown replay kind {kind}")
